@@ -397,9 +397,19 @@ func (c *core) fastForward(block *hg.Block, frame *hg.Frame) error {
 		return err
 	}
 
-	// Update peer-selector and validators
+	// Update peer-selector and validators. The validators field must reflect
+	// the latest recorded validator-set, which may have been decided by a block
+	// before the anchor but only become effective after the frame's round;
+	// otherwise later membership changes would be applied to a stale set.
 	c.setPeers(peers.NewPeerSet(frame.Peers))
 	c.validators = peers.NewPeerSet(frame.Peers)
+	latestRound := -1
+	for round, ps := range frame.PeerSets {
+		if round > frame.Round && round > latestRound {
+			latestRound = round
+			c.validators = peers.NewPeerSet(ps)
+		}
+	}
 
 	return nil
 }
